@@ -330,6 +330,16 @@ func resolveUpstreamConfig(service *ServiceConfig, override string) (*UpstreamCo
 		src = &UpstreamConfig{}
 	}
 
+	// the options of a cluster block only override the options they state: merge them over the
+	// default block's options field by field instead of replacing the block wholesale below
+	if dst.RouteConfig.Options != nil && src.RouteConfig.Options != nil {
+		merged := *dst.RouteConfig.Options
+		if err := mergo.Merge(&merged, *src.RouteConfig.Options, mergo.WithOverride); err != nil {
+			return nil, err
+		}
+		src.RouteConfig.Options = &merged
+	}
+
 	err := mergo.Merge(dst, *src, mergo.WithOverride)
 	if err != nil {
 		return nil, err
